@@ -314,4 +314,30 @@ def resolveSupersF (tab : List Decl) : Nat → List (Nat × Nat) → Ty → SupA
 def resolveSupers (tab : List Decl) (t : Ty) : SupAcc :=
   resolveSupersF tab (tab.length + 2) [] t ([], false, false)
 
+/-- The same function with the repair of finding C05-F6 (skip a super type that is already
+collected: `collector.types.iter().any(|t| t.is_the_same_type(&instantiated_super_type))`), which
+makes diamond-shaped hierarchies linear instead of exponential. `vlib/c06.py` selects the variant
+the current source implements (it looks for that test in global_signature.rs) and ties it exactly. -/
+def resolveSupersMF (tab : List Decl) : Nat → List (Nat × Nat) → Ty → SupAcc → SupAcc
+  | 0, _, _, acc => (acc.1, acc.2.1, true)
+  | fuel + 1, path, t, acc =>
+    match keyOf t with
+    | none => acc
+    | some k =>
+      if path.contains k then (acc.1, true, acc.2.2)
+      else
+        match findDecl tab k with
+        | none => acc
+        | some d =>
+          (d.supers.map (subst (d.tparams.zip (targsOf t)))).foldl
+            (fun a s =>
+              if a.1.any (fun u => sameType u s) then a
+              else
+                let r := resolveSupersMF tab fuel (k :: path) s a
+                (r.1 ++ [s], r.2.1, r.2.2))
+            acc
+
+def resolveSupersM (tab : List Decl) (t : Ty) : SupAcc :=
+  resolveSupersMF tab (tab.length + 2) [] t ([], false, false)
+
 end SamVerif.Gates
